@@ -17,15 +17,15 @@ PROPERTIES["C19"] = {
                   "(n<=4 distinct symbolic keys, symbolic values) every operation with symbolic arguments agrees with a reference "
                   "insertion-ordered map and re-establishes the invariant, with no panic; so histories of any length are covered "
                   "up to the size bound. Bounded histories from New() cross-check the invariant. A model is replayed natively.",
-    "level_note": "Bounds: n<=3/4 keys over a 4-letter alphabet, Map[string,int]; callbacks range over parametrised families. "
+    "level_note": "Bounds: n<=4 keys over a 4-letter alphabet, Map[string,int]; callbacks range over parametrised families. "
                   "sort.SliceStable, cmp.Equal are engine intrinsics (stable insertion sort, structural equality). "
                   "JSON: UnmarshalJSON is executed on symbolic documents (<=3 members, keys symbolic and possibly repeated or already present, "
                   "non-object documents, wrong value types) and MarshalJSON through a token-level model of encoding/json's Decoder (Token/More/Decode) "
                   "and Encoder/bytes.Buffer (segments) with their documented contract; derived maps (Filter/Map) must share no storage with the receiver.",
     "bounds": {
-        "VerifC19Step": "one operation (set/remove/has+get/filter/map/sort x2/equal/from_map) from an arbitrary state with n<=3 (quick) / n<=4 (thorough) "
+        "VerifC19Step": "one operation (set/remove/has+get/filter/map/sort x2/equal/from_map) from an arbitrary state with n<=4 (both tiers: every subset and order of the alphabet) "
                         "pairwise distinct keys over the alphabet {a,b,c,d}, values symbolic in [0,100], argument key symbolic over the same alphabet",
-        "VerifC19History": "histories of 3 (quick) / 4 (thorough) symbolic operations from New()",
+        "VerifC19History": "histories of 4 (quick) / 5 (thorough) symbolic operations from New()",
         "VerifC19JSONHistory": "histories of 2 (quick) / 3 (thorough) operations including JSON decode of a symbolic document and encode-decode round trips",
         "VerifC19JSONDocs": "documents that are not an object of integers (null, number, string, array, string member, fractional member)",
         "outside": "byte-level JSON syntax (escapes, whitespace, number text forms: the document is a tree); At(i) outside 0<=i<Len; value type other than int",
